@@ -1,5 +1,7 @@
 mod core;
 mod sut;
+mod gen;
+mod refmodel;
 mod checks;
 
 use crate::core::{Ctx, Tier};
